@@ -110,8 +110,11 @@ add(Contract("yarl._url:_encode_host", [("host", STR), ("validate_host", BOOL)],
 add(Contract("yarl._path:normalize_path", [("path", STR)], spec=spec_path.normalize_path,
              opaque=True, shape=STR, congruent=True, props=("C15", "C14", "C19")))
 add(Contract("yarl._url:encode_url", [("url_str", STR)], spec=spec_url.encode_url, raises=(ValueError,),
-             transparent=("yarl._parse:make_netloc",), shards=16,
-             props=("WIP",)))
+             transparent=("yarl._parse:make_netloc",), shards=16, tier="thorough",
+             memo_skip=("raw_host", "raw_user", "raw_password", "explicit_port"),
+             props=("WIP",),
+             note="thorough tier only (minutes on 16 cores): the five stored parts refine the specification; the eager "
+                  "authority entries of the memo (raw_host, raw_user, raw_password, explicit_port) are not attempted here"))
 add(Contract("yarl._url:pre_encoded_url", [("url_str", STR)], spec=spec_url.pre_encoded_url, raises=(ValueError,),
              props=("C07", "C19", "C09")))
 
@@ -128,7 +131,7 @@ add(Contract("yarl._url:URL.build",
              [("cls", CONST(None)), ("scheme", STR), ("authority", STR), ("user", OPT(STR)), ("password", OPT(STR)),
               ("host", STR), ("port", UNION(OPT(INT), BOOL, CONST("80"))), ("path", STR), ("query", CONST(None)),
               ("query_string", STR), ("fragment", STR), ("encoded", BOOL)],
-             spec=spec_url.build, raises=(TypeError, ValueError), props=("WIP",)))
+             spec=spec_url.build, raises=(TypeError, ValueError), props=("WIP2",)))
 
 # ---------------------------------------------------------------- the quoters (C01, C02, C04, C05)
 import ast as _ast
@@ -313,6 +316,11 @@ add(Contract("yarl._url:URL.with_name", [("self", URLT), ("name", UNION(STR, CON
              spec=spec_url.with_name, raises=(TypeError, ValueError), split_model="plist", props=("C13", "C11", "C19")))
 add(Contract("yarl._url:URL.with_suffix", [("self", URLT), ("suffix", UNION(STR, CONST(1))), ("keep_query", BOOL), ("keep_fragment", BOOL)],
              spec=spec_url.with_suffix, raises=(TypeError, ValueError), split_model="plist", props=("C13", "C11", "C19")))
+
+add(Contract("yarl._url:URL._make_child", [("self", URLT), ("paths", "strtuple"), ("encoded", BOOL)],
+             spec=spec_url.make_child, requires=spec_url.make_child_requires, raises=(ValueError,), split_model="plist",
+             props=("C13", "C11", "C19"),
+             note="'/' and joinpath for 0, 1 and 2 texts of any content, outside the normalising branch"))
 
 # ---------------------------------------------------------------- reference resolution (C14)
 add(Contract("yarl._url:URL.join", [("self", URLT), ("url", UNION(URLT, CONST(None, "x")))], spec=spec_url.join,
